@@ -37,7 +37,7 @@ def log(msg: str) -> None:
 CWD_KINDS = ["proj", "work", "S", "src", "srcsub", "src_testdir", "out", "elsewhere", "ro", "decoy_pkg", "decoy_file"]
 INVOCATIONS = ["console", "dash_m", "pythonpath0", "pythonpath1", "pythonpath2", "pythonpath3"]
 SRC_SPELLINGS = ["rel", "trail", "dot", "detour", "symlink", "reltrail"]
-OUT_SPELLINGS = ["rel", "trail", "dot", "detour", "symlink", "reltrail", "nested", "nested_rel"]
+OUT_SPELLINGS = ["rel", "trail", "dot", "detour", "symlink", "symlink_dotdot", "reltrail", "nested", "nested_rel"]
 SMALL_HASHSEEDS = list(range(1, 16))
 
 
